@@ -203,6 +203,21 @@ fn corpus() -> Vec<(MapSpec, &'static str)> {
     let mut m = base(0);
     m.objects = vec![circle(0, 0, 0.0), circle(300, 300, 1000.0), circle(1, 1, 86_400_000.0)];
     v.push((m, "witness-sections"));
+    // witnesses of the finding `curve-nan-vertex` (worker CURVE): an inner perfect-curve segment
+    // `L|10:0|P|3244:-2736|3225:104|3208:2645` (rendered below: the `P` token is spliced into the text)
+    // whose determinant is 1 — `circular_arc_properties`' `d` cancels to 0 in f32, the centre is
+    // infinite, every arc vertex NaN; catch (native and converted) then panics in `f32::clamp`
+    for mode in [0u8, 2] {
+        let mut m = base(mode);
+        m.objects = vec![circle(100, 100, 1000.0), slider(0, 0, 1500.0, 'L', vec![(10, 0), (3244, -2736), (3225, 104), (3208, 2645)], 1, 300.0), circle(300, 200, 2300.0)];
+        v.push((m, "witness-curve-arc-nonfinite-centre"));
+    }
+    // ... and the osu!-mode NaN vertex of `calculate_length` (legacy catmull `[A, A, B]`, expected
+    // distance <= optimized_len): absorbed by every calculator (no panic, finite attributes)
+    let mut m = base(0);
+    m.version = 9;
+    m.objects = vec![circle(100, 100, 1000.0), slider(100, 100, 1500.0, 'C', vec![(100, 100), (100, 100), (150, 100)], 2, 7.0), circle(300, 200, 1700.0)];
+    v.push((m, "curve-catmull-nan-vertex"));
     v
 }
 
@@ -751,7 +766,11 @@ pub fn gen_case(seed: u64, domain: Domain, idx: usize) -> Case {
         let c = corpus();
         if idx < c.len() {
             let (m, name) = &c[idx];
-            return Case { bytes: m.render().into_bytes(), origin: "corpus", kind: format!("corpus:{name}"), tags: vec![] };
+            let mut text = m.render();
+            if *name == "witness-curve-arc-nonfinite-centre" {
+                text = text.replace("L|10:0|3244:-2736", "L|10:0|P|3244:-2736");
+            }
+            return Case { bytes: text.into_bytes(), origin: "corpus", kind: format!("corpus:{name}"), tags: vec![] };
         }
     }
     let mut rng = case_rng(seed, domain, idx);
@@ -948,7 +967,11 @@ struct Rec {
     heavy: bool,
     /// judgements of the current mania block (`n_objects + n_hold_notes`), 0 elsewhere
     mania_n: u64,
+    /// the map has a slider whose curve (as catch computes it) has a non-finite vertex — the narrow
+    /// classifier of the known finding `curve-nan-vertex`
+    curve_nan: bool,
 }
+
 
 impl Rec {
     fn count(&mut self, key: &'static str) {
@@ -1012,7 +1035,10 @@ impl Rec {
                 let loc = LAST_PANIC_LOC.lock().map(|g| g.clone()).unwrap_or_default();
                 // (the former class taiko-gradual-first-two-objects — `total_hits - idx` of the taiko
                 // gradual len() overflowing — is fixed in /repo: such a panic is an ordinary failure)
-                let class = "";
+                // known finding `curve-nan-vertex`: a NaN x position of a nested catch object reaches
+                // `f32::clamp` in `Movement::strain_value_at` (assert `min <= max`). Narrow: the map has a
+                // slider whose real curve is non-finite, the target is catch, and it is this assertion.
+                let class = if self.curve_nan && self.ctx.contains("target=catch") && msg.contains("min > max, or either was NaN") { "curve-nan-vertex" } else { "" };
                 if self.fails.len() < 8 {
                     self.fails.push((api.to_owned(), class.to_owned(), format!("panic `{msg}` at {loc} [{}]", self.ctx)));
                 }
@@ -1183,6 +1209,10 @@ fn score_perf<'a>(mut p: Performance<'a>, rng: &mut Rng, n: u32) -> Performance<
 /// Every public calculation on one decoded, non-suspicious, bounded map.
 fn exercise(map: &Beatmap, rng: &mut Rng, domain: Domain, rec: &mut Rec, n_settings: usize, slider_heavy: bool, force_rate: Option<f64>) {
     let span = span_ms(map);
+    rec.curve_nan = crate::common::map_has_nonfinite_curve(map, false);
+    if rec.curve_nan {
+        rec.count("maps-with-nonfinite-curve");
+    }
     rec.ctx = "map-level".into();
     rec.call("bpm", || map.bpm());
     rec.call("total_break_time", || map.total_break_time());
@@ -1413,7 +1443,7 @@ fn child_main(seed: u64, domain: Domain, lo: usize, hi: usize, file: &Path, n_se
         let t0 = Instant::now();
         let case = gen_case(seed, domain, idx);
         let trace = if hi == lo + 1 { out.try_clone().ok() } else { None };
-        let mut rec = Rec { trace, beat: out.try_clone().ok(), last_beat: Instant::now(), cpu_cached: thread_cpu_ms(), cpu_read_at: Instant::now(), apis: BTreeMap::new(), fails: Vec::new(), max_call_ms: 0, ctx: String::new(), heavy: false, mania_n: 0 };
+        let mut rec = Rec { trace, beat: out.try_clone().ok(), last_beat: Instant::now(), cpu_cached: thread_cpu_ms(), cpu_read_at: Instant::now(), apis: BTreeMap::new(), fails: Vec::new(), max_call_ms: 0, ctx: String::new(), heavy: false, mania_n: 0, curve_nan: false };
         rec.ctx = "decode".into();
         let decoded = rec.call("decode", || Beatmap::from_bytes(&case.bytes));
         let mut stage = "decode-panicked";
